@@ -22,6 +22,7 @@ EXPLANATION = (
     "switched cache; Context.from_context writes only the fresh copy. Decides these clauses for all paths, not the "
     "equality of observable answers before/after a sequence of operations.")
 EXPLANATION += ' Also decided (rules added after the second round of seeded changes): Context.from_context carries every field of the original.'
+EXPLANATION += " Also decided (round 5): every inserted context contributes exactly one rule map (contexts and maps stay in step with remove_contexts); with_context's arguments are decided by scope."
 
 
 def run(ck, ix, tier):
